@@ -50,7 +50,7 @@ CORPUS = [
     ("-", "fn main() { let i = 0; while i < 3 { i += 1; println(i * 2, i + 1, i - 1, i == 2, i != 2, i < 2, i >= 2); } println(1.5 + 2.25, 3f * 2f, 10.0 - 0.5, true, !false, (1 + 2) as float); }"),
     ("-", "let g = [1, 2]; let h = \"s\"; fn main() { for x in g { if x == 1 { continue; } println(x, h); } let r = if g.len() > 1 { \"many\" } else { \"few\" }; println(r); }"),
 ]
-CORPUS_SEEDS = list(range(1, 17))
+CORPUS_SEEDS = list(range(1, 21))
 
 # just outside the class: the difference the class hypothesis excludes may (not must) show
 OUTSIDE = [
@@ -221,7 +221,7 @@ def run(ctx):
     shipped = shipped_programs()
     ctx.coverage["shipped_programs"] = len(shipped)
     ctx.coverage["shipped_excluded"] = SHIPPED_EXCLUDED
-    seeds = [ctx.rng.randrange(1, 1 << 40) for _ in range(4 if quick else 60)]
+    seeds = [ctx.rng.randrange(1, 1 << 40) for _ in range(5 if quick else 60)]
     cases = [dict(c, seed=sd, passes=1 + k % 4, tie=k == 0) for c in shipped for k, sd in enumerate(seeds)
              if c["label"] not in HEAVY or (k == 0 or not quick)]
     for c in cases:
@@ -230,7 +230,7 @@ def run(ctx):
             c["timeout"] = 30000
     nv2, _ = judge(ctx, cases, "C20 shipped", model_ok)
     # 3. generated programs in the class x seeds x 1..4 passes
-    nprog = 90 if quick else 1500
+    nprog = 150 if quick else 1500
     per = 4 if quick else 12
     feats = {}
     cases = []
@@ -251,7 +251,7 @@ def run(ctx):
     _, nd = judge(ctx, out_cases, "C20 outside-class", False, judged=False)
     ctx.coverage["outside_class_variants_that_differ"] = nd
 
-    ctx.coverage["rule"] = ("(program, seed, passes) triples: witnesses of every fuzzer finding x 16 seeds (thorough: 119), the shipped examples/tests x "
+    ctx.coverage["rule"] = ("(program, seed, passes) triples: witnesses of every fuzzer finding x 20 seeds (thorough: 119), the shipped examples/tests x "
                             "random seeds x 1..4 passes, typed random programs inside the class of the statement x random seeds x 1..4 "
                             "passes; every intermediate variant is re-analysed and run on both backends; non-trivial = distinct triple "
                             "whose original is accepted")
